@@ -39,7 +39,8 @@ def cases(tier, seed):
                    final=rnd.choice(['real', 'real', 'real', 'failure', 'cancel', 'warning']),
                    sched=rnd.choice(['uniform', 'user-ahead', 'stall']), align=rnd.random() < 0.35,
                    others=rnd.choice([0, 0, 1, 2]), fine=rnd.random() < 0.4,
-                   pre_store=rnd.random() < 0.25, seed=seed * 100003 + i)
+                   pre_store=rnd.random() < 0.25, reuse=rnd.random() < 0.3,
+                   seed=seed * 100003 + i)
 
 
 _cases_base = cases
@@ -127,10 +128,19 @@ def run_case(case):
                     seen_queries.append(enc(ds, rc.IMPLICIT_LE))
 
                     def gen():
+                        # reuse: the application refills ONE data set object per match and
+                        # yields it again; what counts is its content at the time of the yield
+                        row = pydicom.Dataset()
                         for d, st in matches:
                             if case['delay']:
                                 world.sim.sleep(case['delay'])
-                            yield d, st
+                            if case.get('reuse'):
+                                row.clear()
+                                row.update(d)
+                                yield row, st
+                            else:
+                                yield d, st
+                        row.clear()
                     return gen()
             srv_ts = [ts] if variant != 'c_find' else None
             srv = world.make_ae(Srv, 'SRV', 11112, srv_ts, case['smax'])
@@ -193,6 +203,19 @@ def run_case(case):
                 import traceback
                 out['exc'] = e
                 out['tb'] = traceback.format_exc()
+        # (installed before any simulated thread starts: a thread is traced from its start)
+        pre = None
+        if case.get('fine'):
+            from .. import preempt
+            if case.get('hot'):
+                pre = preempt.Preempter(world.sim, prob=0.5, park_prob=0.15, park_max=0.05,
+                                        funcs={'encode', 'decode', 'encode_element'},
+                                        files=('dsutils.py',))
+            else:
+                pre = preempt.Preempter(world.sim, prob=0.15,
+                                        funcs=preempt.DEFAULT_FUNCS | {'decode', 'encode_element',
+                                                                       'qr_find_scp', 'qr_find_scu'})
+            pre.install()
         ut = world.spawn(user, 'user')
         others = {}
         n_others = case.get('others', 0) if case['final'] == 'real' else 0
@@ -217,17 +240,6 @@ def run_case(case):
                 others[i] = ('exc', repr(e))
         for i in range(n_others):
             world.spawn(lambda i=i: other(i), 'other%d' % i)
-        pre = None
-        if case.get('fine'):
-            from .. import preempt
-            if case.get('hot'):
-                pre = preempt.Preempter(world.sim, prob=0.5,
-                                        funcs={'encode', 'decode', 'encode_element'})
-            else:
-                pre = preempt.Preempter(world.sim, prob=0.15,
-                                        funcs=preempt.DEFAULT_FUNCS | {'decode', 'encode_element',
-                                                                       'qr_find_scp', 'qr_find_scu'})
-            pre.install()
         if case['sched'] == 'user-ahead':
             # bias: whenever a user/acceptor thread is runnable, prefer it over provider threads
             sim = world.sim
